@@ -180,6 +180,8 @@ def s3(I):
     x, y, S, b, amt, hold = _withdraw_setup(I)
     ch = Chain(I, CONTRACTS)
     pre = b.snapshot()
+    p0 = get_pool(I, 'p1')
+    fixed0 = [clone(p0.get(f)) for f in ('asset_denoms', 'asset_decimals', 'pool_type', 'pool_fees', 'lp_denom', 'pool_identifier')]
     st, resp = ch.execute('lp1', PM, withdraw_msg('p1'), [coin_v(LP, amt)])
     ex_a = I.ctx.fdiv(simp(x * amt), S)
     ex_b = I.ctx.fdiv(simp(y * amt), S)
@@ -192,7 +194,18 @@ def s3(I):
     I.observe('status', 'ok')
     observe_pool(I, 'p1')
     observe_bank(I, b, [(PM, 'uA'), (PM, 'uB'), ('lp1', 'uA'), ('lp1', 'uB'), ('lp1', LP), (PM, LP)], [LP])
-    x2, y2 = reserves_of(get_pool(I, 'p1'))
+    p1 = get_pool(I, 'p1')
+    I.check('pool_still_exists', p1 is not None)
+    if p1 is None:
+        return
+    # a withdrawal changes reserve AMOUNTS only: the asset list keeps every asset in its order (also when a refund rounds to zero), and
+    # denoms, decimals, type, fees, LP denom and identifier are untouched
+    I.check('pool_keeps_every_asset_in_order', [c.get('denom') for c in p1.get('assets').e] == ['uA', 'uB'])
+    I.check('immutable_pool_fields_unchanged', all(I.values_eq(a, bb_) is True for a, bb_ in zip(
+        [p1.get(f) for f in ('asset_denoms', 'asset_decimals', 'pool_type', 'pool_fees', 'lp_denom', 'pool_identifier')], fixed0)))
+    if [c.get('denom') for c in p1.get('assets').e] != ['uA', 'uB']:
+        return
+    x2, y2 = reserves_of(p1)
     ra = simp(b.get('lp1', 'uA') - pre.get('lp1', 'uA'))
     rb = simp(b.get('lp1', 'uB') - pre.get('lp1', 'uB'))
     I.check('burns_exactly_the_lp_sent', smt.And(smt.Eq(b.supply[LP], S - amt), smt.Eq(b.get('lp1', LP), hold - amt)))
